@@ -1,5 +1,10 @@
 """C05 - UDP fragmentation is all-or-nothing and size-bounded."""
 
+MANIFEST = dict(
+    text="TLC exhausts Sys_Frag (code-shaped Defragger + lossy/duplicating/reordering path + fragmenter arithmetic on a boundary grid) against the Prop_C05 monitor; TLC-generated arrival orders are replayed into the real Defragger and every FragUDPMessage/Feed call (real wire codec, real constants) is validated by TLC against the same monitor.",
+    note="Trusted: TLC, the harness' byte comparison of re-parsed fragments, distinct packet IDs among in-flight messages. Model bounds: 3 messages x <=3(4) fragments x <=7(9) deliveries.",
+    tech="TLA+ model checking (TLC) + TLC-generated scenario replay + TLC trace validation of real-code traces", ref="5/C05")
+
 
 def sig(e):
     if e["ev"] in ("FragCall", "Panic"):
